@@ -31,27 +31,36 @@ def run(tier):
                 check.violation({"class": "print-differs", "family": c01.family(t["src"].encode("latin-1"), m["ver"]),
                                  "context": (r.get("src_ctx") or "")[8:14]},
                                 {"src": t["src"], "ver": m["ver"], "diff_at": r.get("print_diff_at"), "printed": r.get("printed_ctx"), "source": r.get("src_ctx")})
-            if m["layout"] == "random" and len(big) < (4000 if tier == "quick" else 12000) and m["ver"] == progs.VERS[family][0] and family == "7":
+            # (programs with an empty heredoc are left out of the scaled sources: known finding D6 would make them useless)
+            if m["layout"] == "random" and len(big) < (4000 if tier == "quick" else 12000) and m["ver"] == progs.VERS[family][0] and family == "7" \
+                    and not ({"heredoc/empty", "nowdoc/empty", "stmt+halt"} & set(m["used"])):
                 big.append(t["src"])
         if family == "7":
             check.sample({"direction": "spec->impl", "src": res[len(res) // 3][1]["src"]})
     # scaled programs: several pool blocks (tokens and positions)
     scaled = []
     for k in (700, 1500, len(big)):
-        parts = [s[len("<?php "):] for s in big[:k]]
-        scaled.append("<?php " + "\n".join(parts))
+        # a program that ends in inline HTML leaves the scanner in HTML mode: the next one keeps its open tag
+        acc = []
+        for s in big[:k]:
+            acc.append(s if (acc and acc[-1].endswith("</b>\n")) or not acc else "\n" + s[len("<?php "):])
+        scaled.append("".join(acc))
     tasks = [{"op": "analyze", "src": s, "ver": v, "limit_ms": 60000} for s in scaled for v in ("7.4", "7.0")]
     for t, r in zip(tasks, wp.run(tasks)):
         check.count()
         if r.get("panic") or r.get("hang") or r.get("crash"):
             continue
         check.cov.setdefault("scaled_token_counts", []).append(r.get("ntok"))
+        if r.get("nerr") == 0:
+            check.cov["scaled_programs_parsed_clean"] = check.cov.get("scaled_programs_parsed_clean", 0) + 1
         if r.get("nerr") == 0 and r.get("print_eq") is False:
             check.violation({"class": "print-differs-scaled", "blocks": (r.get("ntok", 0) // 1024)},
                             {"ver": t["ver"], "ntok": r.get("ntok"), "diff_at": r.get("print_diff_at"), "printed": r.get("printed_ctx"), "source": r.get("src_ctx")})
         for f in r.get("fails") or []:
             if f["c"].startswith("C04."):
                 check.violation({"class": "scaled-" + f["c"]}, {"ver": t["ver"], "ntok": r.get("ntok"), "fail": f})
+    if not check.cov.get("scaled_programs_parsed_clean"):
+        raise core.InfraError("no scaled program parsed without errors: the large-source part of C02 could not be decided")
     # error-free inputs of the scanner machine, corpus
     srcs = [c["src"] for c in lexgen.cases(check, tier, rng)] + [p["src"].encode("latin-1") for p in inputs.clean_programs(tier)]
     srcs = list(dict.fromkeys(srcs))
